@@ -2,7 +2,11 @@
 
 package file
 
-import "net"
+import (
+	"net"
+
+	"github.com/coredhcp/coredhcp/internal/vnd"
+)
 
 // installTable / currentTable name the table a protocol's handler serves from:
 // StaticRecords for DHCPv6, staticRecords4 for DHCPv4.
@@ -23,4 +27,11 @@ func currentTable(v6 bool) map[string]net.IP {
 		return StaticRecords
 	}
 	return staticRecords4
+}
+
+// shareTables marks the lease tables as state shared between goroutines
+// (handlers, the refresher, a second instance's setup) for the lockset log.
+func shareTables() {
+	vnd.Share("file.table6", &StaticRecords)
+	vnd.Share("file.table4", &staticRecords4)
 }
